@@ -175,31 +175,48 @@ Proof.
     rewrite (IH Hr). reflexivity.
 Qed.
 
+Lemma stage1_full d :
+  all_clean d = true ->
+  repl ["{"] ["{"; q] 0 (show_dict d) = "{" :: q :: show_items d ++ ["}"].
+Proof.
+  intros H. unfold show_dict. cbn [app]. rewrite repl1_hit. cbn [app]. do 2 f_equal.
+  rewrite <- (app_nil_r (show_items d ++ ["}"])) at 1. rewrite repl1_app; [now rewrite app_nil_r|].
+  rewrite nochar_app, show_items_nochar by (assumption || reflexivity). reflexivity.
+Qed.
+
+Lemma stage2_full d :
+  all_clean d = true ->
+  repl ["}"] [q; "}"] 0 ("{" :: q :: show_items d ++ ["}"]) = "{" :: q :: show_items d ++ [q; "}"].
+Proof.
+  intros H. change ("{" :: q :: show_items d ++ ["}"]) with (("{" :: q :: show_items d) ++ ["}"]).
+  rewrite repl1_app.
+  - rewrite repl1_hit. reflexivity.
+  - change (nochar "}" ("{" :: q :: show_items d)) with (nochar "}" (["{"; q] ++ show_items d)).
+    rewrite nochar_app, show_items_nochar by (assumption || reflexivity). reflexivity.
+Qed.
+
+Lemma stage3_full d :
+  all_clean d = true ->
+  repl [","; sp] [q; ","; sp; q] 0 ("{" :: q :: show_items d ++ [q; "}"]) = "{" :: q :: items3 d ++ [q; "}"].
+Proof.
+  intros H. cbn [repl is_prefix]. cbn [Ascii.eqb Bool.eqb andb].
+  rewrite stage3 by (assumption || reflexivity). reflexivity.
+Qed.
+
+Lemma stage4_full d :
+  all_clean d = true ->
+  repl [":"; sp] [q; ":"; sp; q] 0 ("{" :: q :: items3 d ++ [q; "}"]) = "{" :: q :: items4 d ++ [q; "}"].
+Proof.
+  intros H. cbn [repl is_prefix]. cbn [Ascii.eqb Bool.eqb andb].
+  rewrite stage4; [reflexivity|assumption|reflexivity|reflexivity|intros W; reflexivity].
+Qed.
+
 Theorem requote_form d :
   all_clean d = true ->
   requote (show_dict d) = ["{"; q] ++ items4 d ++ [q; "}"].
 Proof.
-  intros H. unfold requote, show_dict, py_replace.
-  (* 1: { -> {' *)
-  cbn [app]. rewrite repl1_hit.
-  assert (N1 : nochar "{" (show_items d ++ ["}"]) = true).
-  { rewrite nochar_app, show_items_nochar by (assumption || reflexivity). reflexivity. }
-  rewrite <- (app_nil_r (show_items d ++ ["}"])) at 1. rewrite repl1_app by exact N1. rewrite app_nil_r.
-  (* 2: } -> '} *)
-  cbn [app].
-  change ("{" :: q :: show_items d ++ ["}"]) with (("{" :: q :: show_items d) ++ ["}"]).
-  rewrite repl1_app.
-  2:{ cbn [nochar forallb]. change (forallb _ (show_items d)) with (nochar "}" (show_items d)).
-      rewrite show_items_nochar by (assumption || reflexivity). reflexivity. }
-  rewrite repl1_hit. cbn [repl app].
-  (* 3: ", " -> "', '" *)
-  cbn [repl is_prefix]. cbn [Ascii.eqb Bool.eqb andb].
-  rewrite stage3 by (assumption || reflexivity).
-  cbn [repl is_prefix]. cbn [Ascii.eqb Bool.eqb andb].
-  (* 4: ": " -> "': '" *)
-  cbn [app]. cbn [repl is_prefix]. cbn [Ascii.eqb Bool.eqb andb].
-  rewrite stage4; [|assumption|reflexivity|reflexivity|intros W; reflexivity].
-  cbn [repl is_prefix]. cbn [Ascii.eqb Bool.eqb andb]. reflexivity.
+  intros H. unfold requote, py_replace.
+  now rewrite stage1_full, stage2_full, stage3_full, stage4_full.
 Qed.
 
 (* ------------------------------------------------------------------ *)
@@ -232,18 +249,16 @@ Qed.
 
 Lemma lex_items d items :
   d <> [] -> all_clean d = true ->
-  lex PKeyOpen items (q :: items4 d ++ [q; "}"]) = Some (rev items ++ d).
+  lex (PKey []) items (items4 d ++ [q; "}"]) = Some (rev items ++ d).
 Proof.
   revert items. induction d as [|[k v] r IH]; intros items Hne H; [congruence|].
   apply all_clean_cons in H as (Hk & Hv & Hr).
   cbn [items4]. destruct r as [|p r].
   - rewrite <- !app_assoc. cbn [app].
-    cbn [lex]. cbn [Ascii.eqb Bool.eqb andb].
     rewrite lex_key by assumption. cbn [rev app lex]. cbn [Ascii.eqb Bool.eqb andb].
     rewrite lex_val by assumption. cbn [rev app lex]. cbn [Ascii.eqb Bool.eqb andb].
     reflexivity.
   - rewrite <- !app_assoc. cbn [app].
-    cbn [lex]. cbn [Ascii.eqb Bool.eqb andb].
     rewrite lex_key by assumption. cbn [rev app lex]. cbn [Ascii.eqb Bool.eqb andb].
     rewrite lex_val by assumption. cbn [rev app lex]. cbn [Ascii.eqb Bool.eqb andb].
     rewrite IH by (congruence || assumption). cbn [rev]. now rewrite <- app_assoc.
@@ -436,7 +451,9 @@ Qed.
 Theorem rows_preserved P lines :
   1 <= P -> load_subs P lines = map (fun l => read_row (csv_read_row l)) lines.
 Proof.
-  intros HP. unfold load_subs. rewrite <- concat_map, array_split_tiles by assumption.
+  intros HP. unfold load_subs.
+  rewrite <- (map_map (rank_rows (map csv_read_row lines) P) (map read_row)).
+  rewrite <- concat_map, array_split_tiles by assumption.
   now rewrite map_map.
 Qed.
 
@@ -444,9 +461,9 @@ Corollary row_i_preserved P lines i :
   1 <= P -> nth_error (load_subs P lines) i = option_map (fun l => read_row (csv_read_row l)) (nth_error lines i).
 Proof. intros HP. rewrite rows_preserved by assumption. apply nth_error_map. Qed.
 
-Corollary empty_row_stays_empty P lines i :
-  1 <= P -> nth_error lines i = Some [] -> nth_error (load_subs P lines) i = Some [].
-Proof. intros HP H. rewrite row_i_preserved, H by assumption. reflexivity. Qed.
+Corollary empty_row_stays_empty P (lines : list str) i :
+  1 <= P -> nth_error lines i = Some ([] : str) -> nth_error (load_subs P lines) i = Some [].
+Proof. intros HP H. rewrite row_i_preserved by assumption. rewrite H. reflexivity. Qed.
 
 (* ------------------------------------------------------------------ *)
 (* T4: write the rows, load them with any number of ranks: every cell of every
